@@ -33,7 +33,7 @@ func (s *Semaphore) Acquire(cancel <-chan struct{}, timeout time.Duration) bool 
 	}
 
 	// await token, cancel or deadline
-	verifAwait("semaphore.acquire", s, func() bool { return len(s.tokens) > 0 || verifClosed(cancel) })
+	verifAwait("semaphore.acquire", s, func() bool { return verifReady(len(s.tokens) > 0, verifClosed(cancel)) })
 	select {
 	case <-s.tokens:
 		return true
